@@ -14,8 +14,8 @@ from bsim.sim import PROFILE_NAMES, HarnessError, Sim, World, describe_task, res
 
 PROPERTY = 'C13'
 PLAN = {
-    'quick': [('table', 100), ('pair', 2200)],
-    'thorough': [('table', 100), ('pair', 90000)],
+    'quick': [('table', 100), ('pair', 2200), ('two_centrals', 400)],
+    'thorough': [('table', 100), ('pair', 90000), ('two_centrals', 12000)],
 }
 WALL_CAP = {'quick': 150, 'thorough': 1500}
 EVIDENCE = {
@@ -84,7 +84,9 @@ def gen_pair(rng, tier, seed, index=None):
         fault = [rng.choice(['confirm', 'random', 'public_key', 'dhkey_check']), rng.choice(['to_responder', 'to_initiator'])]
     if rng.random() < 0.05:
         a['answers']['agreed_passkey'] = b['answers']['agreed_passkey'] = 0
-    return {'i': a, 'r': b, 'starter': rng.choice(['central', 'central', 'peripheral_request']), 'negative': neg, 'fault': fault,
+    # who starts: the central; the peripheral through a Security Request; or the peripheral itself sending the Pairing Request
+    # (the SMP initiator is then the link-layer peripheral - bumble supports it, with a warning)
+    return {'i': a, 'r': b, 'starter': rng.choice(['central', 'central', 'central', 'peripheral_request', 'peripheral_request', 'peripheral_direct']), 'negative': neg, 'fault': fault,
             'profile': rng.choice(PROFILE_NAMES), 'reconnect': rng.random() < 0.7, 'repair': rng.random() < 0.2}
 
 
@@ -106,7 +108,12 @@ def run_pair(case):
         log, shared = [], {}
         pairing.install(sim, d0, 'I', A['io'], A['sc'], A['mitm'], A['bonding'], A['answers'], log, shared, A['init_dist'], A['resp_dist'])
         pairing.install(sim, d1, 'R', B['io'], B['sc'], B['mitm'], B['bonding'], B['answers'], log, shared, B['init_dist'], B['resp_dist'])
-        c0, c1 = world.connect_le(0, 1)
+        direct = case['starter'] == 'peripheral_direct'
+        if direct:
+            c1, c0 = world.connect_le(1, 0)  # the device that will send the Pairing Request (N0) is the peripheral of this link
+            sim.probe('smp_initiator_is_link_peripheral')
+        else:
+            c0, c1 = world.connect_le(0, 1)
         events = {'I': [], 'R': []}
         c0.on('pairing', lambda keys: events['I'].append(('pairing', keys)))
         c0.on('pairing_failure', lambda reason: events['I'].append(('failure', reason)))
@@ -137,7 +144,7 @@ def run_pair(case):
             target.transform = transform
 
         # ---- pairing
-        if case['starter'] == 'central':
+        if case['starter'] in ('central', 'peripheral_direct'):
             ptask = sim.loop.create_task(c0.pair())
         else:
             started = []
@@ -237,6 +244,12 @@ def run_pair(case):
                 k = getattr(keys, name)
                 if k is not None and bool(k.authenticated) != auth_expected:
                     sim.violation_once('authflag', f'authenticated-flag:{model}:{name}:{who}', f'{name}.authenticated={k.authenticated} after {model}')
+        if direct:
+            # roles of the distributed legacy keys and the later-connection clauses are stated for a central initiator: not judged here
+            if ki is not None and sc and (ki.ltk is None or kr.ltk is None or ki.ltk.value != kr.ltk.value):
+                sim.violation_once('ltk', 'sc-ltk-differs', 'the two sides hold different LTKs after Secure Connections pairing')
+            sim.trace.shape(A['io'], B['io'], sc, mitm, A['init_dist'] & B['init_dist'], A['resp_dist'] & B['resp_dist'], case['starter'], situation, 'ok')
+            return result(sim, nontrivial=True)
         if ki is not None:
             if sc:
                 if ki.ltk is None or kr.ltk is None or ki.ltk.value != kr.ltk.value:
@@ -321,7 +334,7 @@ def run_pair(case):
         sim.close()
 
 
-def _reconnect_check(sim, world, roles, facts):
+def _reconnect_check(sim, world, roles, facts, pair=None):
     from bumble import hci
 
     # drop whatever link exists
@@ -331,7 +344,7 @@ def _reconnect_check(sim, world, roles, facts):
             sim.loop.settle()
             break
     sim.loop.advance(0.05)
-    ci, pi = (0, 1) if roles == 'same' else (1, 0)
+    ci, pi = pair if pair is not None else ((0, 1) if roles == 'same' else (1, 0))
     try:
         cc, cp = world.connect_le(ci, pi)
     except HarnessError as e:
@@ -382,6 +395,53 @@ def _reconnect_check(sim, world, roles, facts):
         sim.monitors.remove(mon)
 
 
+# ====================================================================================== one peripheral bonded with two centrals
+def gen_two(rng, tier, seed):
+    return {'sc': rng.random() < 0.6, 'io': [rng.randrange(5) for _ in range(3)], 'mitm': rng.random() < 0.5, 'order': rng.choice([[0, 2], [2, 0]]),
+            'idle_between': rng.choice([0.0, 0.05, 1.0]), 'profile': rng.choice(PROFILE_NAMES), 'back': rng.choice([[0], [2], [0, 2], [2, 0]]),
+            'answers_delay': rng.choice([0.0, 0.0, 0.01])}
+
+
+def run_two(case):
+    """N1 is the peripheral; N0 and N2 pair with it one after the other (each on a connection of its own, which gets the same handle),
+    disconnect, and come back: for each of them the peripheral's host must hand out the key it shares with THAT central."""
+    from bumble.keys import MemoryKeyStore
+
+    sim = Sim(case['seed'], case.get('profile', 'zero'), slow_node='N1')
+    try:
+        world = World(sim, 3)
+        world.power_on()
+        log, shared = [], {}
+        for i, nd in enumerate(world.nodes):
+            nd.device.keystore = MemoryKeyStore()
+            pairing.install(sim, nd.device, 'R' if i == 1 else 'I', case['io'][i], case['sc'], case['mitm'], True, {'delay': case['answers_delay']}, log, shared, 0x0F, 0x0F)
+        facts = 'sc' if case['sc'] else 'legacy'
+        handles = []
+        for k in case['order']:
+            cc, cp = world.connect_le(k, 1)
+            handles.append(cp.handle)
+            st, t = sim.run(cc.pair(), 120.0)
+            if st != 'done' or t.exception() is not None:
+                # whether a pairing concludes is the other scenarios' business: here it is only the set-up
+                sim.probe('two_centrals_setup_pairing_failed')
+                return result(sim, nontrivial=False)
+            sim.loop.settle(vt_budget=2.0)
+            st, t = sim.run(cc.disconnect(), 30.0)
+            sim.loop.settle(vt_budget=2.0)
+            if case['idle_between']:
+                sim.loop.advance(case['idle_between'])
+        if len(set(handles)) == 1:
+            sim.probe('both_centrals_were_given_the_same_connection_handle')
+        for k in case['back']:
+            _reconnect_check(sim, world, f'central=N{k}:paired={"first" if case["order"][0] == k else "last"}', facts, pair=(k, 1))
+            if sim.violations:
+                break
+        sim.trace.shape(case['sc'], tuple(case['order']), tuple(case['back']))
+        return result(sim, nontrivial=True)
+    finally:
+        sim.close()
+
+
 def gen_table(rng, tier, seed, index):
     """The association-model table, exhaustively: 5x5 IO capabilities x {legacy, SC} x {no MITM, MITM} = 100 cells."""
     io_i, io_r, sc, mitm = index % 5, (index // 5) % 5, bool((index // 25) % 2), bool((index // 50) % 2)
@@ -393,4 +453,4 @@ def gen_table(rng, tier, seed, index):
 
 gen_table.wants_index = True
 
-SCENARIOS = {'pair': (gen_pair, run_pair), 'table': (gen_table, run_pair)}
+SCENARIOS = {'pair': (gen_pair, run_pair), 'table': (gen_table, run_pair), 'two_centrals': (gen_two, run_two)}
